@@ -12,6 +12,14 @@ Keep-alive agreement is judged on *decisions*: what the server does with its
 transport as part of finishing a response (SimNet sees the close() call and who
 made it) against the framing/Connection headers it put on the wire and against
 the connection the client writes its next request to.
+
+Two sampled extensions (drawn last in gen(), keys absent from every other scenario): (1) one exchange is sent with
+expect100=True and the route's expect_handler refuses it with a final 403/417 and no "100 Continue" - the caller must
+see exactly that response, and the next request of the session must not be written to that connection while the
+announced body is unsent (invariant expect_refused); (2) ClientSession(headers=...) defaults combined with per-request
+headers whose names repeat in different letter case, given as list / dict / CIMultiDict / MultiDict - the handler must
+see the per-request values of a name (all, in order) or else the session defaults of that name (request_roundtrip,
+keys header_merge:* and headers_mapping_view:*).
 """
 from __future__ import annotations
 
@@ -54,14 +62,18 @@ LEVEL_NOTE = (
     "triggers one of the reported defects that puts garbage on a connection, exchanges before the trigger are judged "
     "in full and later ones are not judged. Two white-box reads, neither of which decides a verdict on its own: "
     "StreamResponse.keep_alive (the server's decision when the client's close reached the server first) and the "
-    "parser's pending-input flag (only to name the class of a 'blocked' verdict)."
+    "parser's pending-input flag (only to name the class of a 'blocked' verdict). A refused expectation (final response "
+    "from the route's expect_handler, no '100 Continue') is judged on the wire: the head announced a body, fewer bytes "
+    "followed, and the next request head went to the same connection; what follows on that connection is not judged."
 )
 RULE = (
     "Run = 1-6 exchanges of (method, URL shape, headers, cookies, body kind x size around 2 KiB/64 KiB, chunked, "
     "compress, expect100) x (status, reason, headers, Set-Cookie, body kind fixed/text/stream/payload/file/json, "
     "compression forced or negotiated, chunked or declared length, force_close, Connection header, 1xx interim) x "
     "ClientSession(version=1.0|1.1) x segmentation policy per direction and connection x latency x ties x read "
-    "pauses on either side x executor mode x read_bufsize/write-buffer knobs x EOF lag x idle-timer settings; batch "
+    "pauses on either side x executor mode x read_bufsize/write-buffer knobs x EOF lag x idle-timer settings; ~7% of runs "
+    "have one expectation refused by a route expect_handler (raise/return/write x 403/417 x close), ~8% of runs use session "
+    "default headers and per-request headers that repeat names in other letter case (list/dict/CIMultiDict/MultiDict); batch "
     "'reset' adds one reset/EOF at a byte offset or loop step. Non-trivial: >=2 exchanges completed and at least one "
     "connection was reused or closed by a decision of either end. Distinct = interleaving signature."
 )
@@ -726,6 +738,20 @@ def oracle_selftest():
     assert persistent_by_headers((1, 0), ["Keep-Alive"]) and not persistent_by_headers((1, 1), ["x, Close"])
     assert hdr_groups([("A", "1"), ("a", "2"), ("B", "")]) == {"a": ["1", "2"], "b": [""]}
     assert split_pieces(b"abcdef", [0, 2, 0, 4]) == [b"", b"ab", b"", b"cdef"]
+    # session defaults x per-request headers: documented merge (tests/test_client_session.py::test_merge_headers*)
+    scn_ = {"version": "1.1", "session_headers": {"form": "list", "pairs": [["X-Dup", "s1"], ["x-dup", "s2"], ["X-Sess", "a"], ["h2", "d"]]}}
+    rp, sp, spec_ = expected_request_fields(scn_, 3, {"headers": [["x-sess", "b"], ["X-New", "1"], ["x-new", "2"], ["X-NEW", "3"]]})
+    assert spec_ == {"x-ex": ["3"], "x-sess": ["b"], "x-new": ["1", "2", "3"], "x-dup": ["s1", "s2"], "h2": ["d"]}, spec_
+    assert header_merge_class("x-new", rp, sp) == "request_names_differ_in_case"
+    assert header_merge_class("x-sess", rp, sp) == "request_replaces_session_default"
+    assert header_merge_class("x-dup", rp, sp) == "session_default_only" and header_merge_class("x-ex", rp, sp) is None
+    assert expected_request_fields({"version": "1.1"}, 0, {"headers": [["A", "1"], ["A", "2"]]})[2] == {"x-ex": ["0"], "a": ["1", "2"]}
+    assert header_symptom(["1", "2", "3"], ["3"]) == "values_lost" and header_symptom(["1"], None) == "values_lost"
+    assert header_symptom(["1"], ["1", "1"]) == "values_added" and header_symptom(["1", "2"], ["2", "1"]) == "values_differ"
+    assert is_refused({"version": "1.1"}, {"expect_refuse": {"how": "raise"}, "expect100": True})
+    assert not is_refused({"version": "1.0"}, {"expect_refuse": {"how": "raise"}, "expect100": True})
+    assert not is_refused({"version": "1.1"}, {"expect_refuse": {"how": "raise"}, "expect100": False})
+    assert not is_refused({"version": "1.1"}, {"expect100": True})
     # multipart reference decoder against a hand-written message
     body = (b"--BB\r\nContent-Type: text/plain; charset=utf-8\r\nContent-Disposition: form-data; name=\"f0\"\r\n\r\nv v\r\n"
             b"--BB\r\nContent-Type: application/octet-stream\r\nContent-Disposition: form-data; name=\"upl\"; filename=\"a.bin\"\r\n\r\n"
@@ -1300,6 +1326,7 @@ def run(scn, ch, log=False):
 
         head_body_dropped = set()
         reuse_after_refusal = set()  # refused exchanges after which the client went on using the connection
+        reuse_conns = set()          # ... and the connections this happened on: what follows on them is garbage in, garbage out
         all_segs = []
         for n, chunks in sorted(c_stream.items()):
             cur = None
@@ -1363,6 +1390,7 @@ def run(scn, ch, log=False):
                     poisoned(j)
                     poison["incl"] = min(poison.get("incl", len(exchanges)), j)  # exchange j itself is already a victim
                     reuse_after_refusal.add((sg["ex"], fr_))
+                    reuse_conns.add(sg["conn"])
                     violate("expect_refused", f"next_request_written_after_unsent_body:{fr_}",
                             f"exchange {sg['ex']} ({rq['method']} body={rq['body']['kind']} chunked={rq['chunked']!r} expect100=True) was "
                             f"answered {results[sg['ex']]['status'] if sg['ex'] < len(results) else None} by the route's expect_handler "
@@ -1665,7 +1693,7 @@ def run(scn, ch, log=False):
             rsps, rest = http1.split_responses(bytes(s_out.get(n, b"")), methods=methods, closed=closed)
             wire_resps[n] = (rsps, rest)
             finals = [r for r in rsps if not r.get("interim")]
-            if any_fault:
+            if any_fault or n in reuse_conns:
                 continue
             if isinstance(rest, tuple) and rest[0] == "malformed" or (rest == "partial" and not blocked and c["finished"] == len(c["handled"])
                                                                       and not (rsps and rsps[-1]["framing"] == "eof")):
@@ -2087,6 +2115,33 @@ PROPOSED_KNOWN_FINDINGS = [
   "key_regex": "connection_not_reusable_when_response_completed:expect100",
   "summary": "when a response completes while the request writer task is still pending (expect100 with an empty/short body: '100 Continue' and the final response arrive in one read), ClientResponse._response_eof cancels the writer and defers the release to its done-callback; read()/release() then await the already-finished writer but its callbacks have not run yet, so the connection is not back in the pool when the caller continues and the next request of the session opens a second connection although both ends chose keep-alive (the first connection is pooled a few callbacks later); wasteful, not unsafe",
   "example": "session.put(url, data=BytesPayload(b''), expect100=True) immediately followed by another request on the session"
+ },
+ {
+  "id": "C02-F14",
+  "property": "C02",
+  "status": "known",
+  "invariant": "expect_refused",
+  "key_regex": "next_request_written_after_unsent_body:(content_length|chunked)",
+  "summary": "a request sent with expect100=True whose expectation is refused (the server answers a final status such as 403/417 without '100 Continue', e.g. from a route's expect_handler) leaves its announced body unsent, yet the client keeps the connection: ClientRequest._write_bytes waits for the 100 in 'await self._continue' (client_reqrep.py:1487) outside the try block whose CancelledError branch does conn.close() ('Body hasn't been fully sent, so connection can't be reused', :1507-1510), so when ClientResponse._response_eof cancels the writer (:578 -> _cleanup_writer :657) nothing closes the connection and the writer's done-callback releases it to the pool (:640, :637). The server is still discarding the announced body (web_protocol.py:753-768, lingering up to 10 s), so the next request of the session written to that connection is swallowed as that body: it is lost (caller waits for the lingering timeout, then ServerDisconnectedError or a silent retry), or its tail is parsed as a request of its own (400 'Bad HTTP method', or a handler that sees method 'OST' when the missing body was one byte long)",
+  "example": "app.router.add_post('/', h, expect_handler=eh) with 'async def eh(request): raise web.HTTPForbidden()'; client: await session.post(url, data=b'x'*300, expect100=True) -> 403; await session.get(url) on the same session -> 400 Bad Request (\"Bad HTTP method in status line\") or a 10 s stall"
+ },
+ {
+  "id": "C02-F15",
+  "property": "C02",
+  "status": "known",
+  "invariant": "request_roundtrip",
+  "key_regex": "header_merge:request_names_differ_in_case:values_lost",
+  "summary": "ClientSession._prepare_headers (client.py:1233-1239) remembers the names it has already copied from the per-request headers in a plain set of str ('added_names') and tests 'key in added_names' with the spelling as given, while 'result' is a CIMultiDict: a second per-request value whose name differs only in letter case is not recognised as a repeat, so 'result[key] = value' (:1238) replaces every value of that field - including the one just copied - instead of 'result.add' (:1236). Every per-request value of the field except those of the last spelling seen first is silently dropped (list of pairs, MultiDict and CIMultiDict alike); field names are case-insensitive (RFC 9110 5.1) and the same pairs with one spelling are all sent",
+  "example": "session.get(url, headers=[('X-Dup', 'one'), ('x-dup', 'two')]) sends only 'x-dup: two'   (with [('X-Dup', 'one'), ('X-Dup', 'two')] both are sent)"
+ },
+ {
+  "id": "C02-F16",
+  "property": "C02",
+  "status": "known",
+  "invariant": "request_roundtrip",
+  "key_regex": "headers_mapping_view:one_entry_per_spelling_of_a_name",
+  "summary": "HeadersDictProxy (request.headers / response.headers) looks names up case-insensitively and joins all field lines of a name with ', ' (helpers.py:788-789), but __iter__ and __len__ de-duplicate the keys of the underlying CIMultiDict case-sensitively (helpers.py:794-802, a set of the spellings as received): a message carrying 'x-dup: a' and 'X-Dup: b' yields both spellings as keys, each mapped to 'a, b', so len() is too large and dict(headers)/headers.items() (e.g. a proxy copying the fields) repeat the values",
+  "example": "GET / with field lines 'x-dup: a' and 'X-Dup: b': list(request.headers.items()) contains ('x-dup', 'a, b') and ('X-Dup', 'a, b')"
  }
 ]
 
